@@ -123,6 +123,27 @@ def build_pool(chk, quick):
             open(p, 'wb').write(container.write_container('wowsreplay', json.dumps(eng, ensure_ascii=False).encode('utf-8'), [], info.decrypted_data))
             pool.append(p)
             failing.append(p)
+    # rosters whose values are nested far beyond anything recorded (a tuple 600 deep, a list 1500 deep): whatever a parse does about its
+    # own recursion depth must not change what a later parse of another file gives
+    deep_files = []
+    try:
+        import importlib
+        from . import C18
+        newest = sorted([v for g, v in versions if g == 'wows'], key=lambda x: tuple(int(c) for c in x.split('_')[:3]))[-1]
+        consts = importlib.import_module('replay_unpack.clients.wows.versions.%s.constants' % newest)
+        rev = {v: k for k, v in consts.id_property_map.items()}
+        for tag, deep in (('deep-tuple-600', b')' + b'\x85' * 600), ('deep-list-1500', b'(' * 1500 + b']' + b'l' * 1500)):
+            payload = (b'\x80\x02](](' + b'K' + bytes([rev['id']]) + b'J' + (777).to_bytes(4, 'little') + b'\x86' +
+                       b'K' + bytes([rev['name']]) + deep + b'\x86' + b'ee.')
+            p = C18.hostile_battle('wows', newest, chk.seed, 'onGameRoomStateChanged', payload=payload, tag='c13-' + tag)
+            if p:
+                q = os.path.join(d, '%s.wowsreplay' % tag)
+                os.replace(p, q)
+                pool.append(q)
+                failing.append(q)
+                deep_files.append(q)
+    except Exception:
+        pass
     # build-specific siblings of one release (different definitions and controllers under one 3-component name)
     siblings = []
     for g, v in versions:
@@ -138,7 +159,7 @@ def build_pool(chk, quick):
             if len(pair) == 2:
                 siblings.append(pair)
                 pool += [q for q in pair if q not in pool]
-    return d, pool, failing, siblings
+    return d, pool, failing, siblings, deep_files
 
 
 def run(chk, drv):
@@ -146,7 +167,7 @@ def run(chk, drv):
     chk.cov['rule'] = ('sequences of 6 random parse calls in one process drawn from recordings, synthetic battles of several versions and failing files, '
                        'mixed modes, plus directed pairs (every failing parse then another file; build-specific sibling versions in both orders); each result compared with two fresh-process results (different PYTHONHASHSEED). Non-trivial: >= 2 different versions or '
                        'a failing parse inside; distinct by the sequence of (file, mode).')
-    d, pool, failing, siblings = build_pool(chk, quick)
+    d, pool, failing, siblings, deep_files = build_pool(chk, quick)
     try:
         items = ['%s=%s' % (m, p) for p in pool for m in ('lenient', 'strict')]
         fresh = {}
@@ -179,6 +200,10 @@ def run(chk, drv):
         for a, b in siblings:
             for m in ('lenient', 'strict'):
                 seqs += [['%s=%s' % (m, a), '%s=%s' % (m, b)], ['%s=%s' % (m, b), '%s=%s' % (m, a)]]
+        if len(deep_files) == 2:
+            a_, b_ = deep_files
+            seqs += [['lenient=' + b_, 'lenient=' + a_], ['lenient=' + a_, 'lenient=' + b_, 'lenient=' + a_], ['lenient=' + b_, 'strict=' + a_],
+                     ['lenient=' + b_, 'lenient=' + good[0]], ['lenient=' + a_, 'lenient=' + good[-1]]]
         # one parser object kept while other files are parsed, then asked again (A, B, A through the same object)
         for _ in range(6 if quick else 60):
             a, b = rng.sample(good, 2)
